@@ -32,6 +32,10 @@ func (p PacketForwardingRules) String() string {
 func (pConn *PFCPConn) NewPFCPSession(rseid uint64) (PFCPSession, bool) {
 	for i := 0; i < pConn.maxRetries; i++ {
 		lseid := pConn.rng.Uint64()
+		if lseid == 0 {
+			// 0 is not a valid SEID: the store refuses it
+			continue
+		}
 		// Check if it already exists
 		if _, ok := pConn.store.GetSession(lseid); ok {
 			continue
